@@ -6,6 +6,7 @@ import MesaModel.Model.VizKwargs
 import MesaModel.Model.VizSize
 import MesaModel.Model.VizCtrl
 import MesaModel.Model.VizNet
+import MesaModel.Model.VizFrame
 /-!
 Line-protocol driver for the Viz model (C20).  One output line per input line.
 Producer: harness/viz_common.py.
@@ -24,6 +25,8 @@ Producer: harness/viz_common.py.
   drawk K=V …                        draw_space(…, **{K: V}), K ∈ alpha edgecolors linewidths (plotting keyword arguments)
   drawnet N:X:Y …                    networks: draw_space(…, layout_alg=<callable returning {N: (X, Y), …}>, layout_kwargs={…}, draw_grid=False);
                                      the markers at their layout positions, `size=` the default size
+  frame                              the axis limits draw_space asks for (hex grids in units of √3/2, 1/2; continuous spaces relative to
+                                     their origin; `-` for networks)
   sdefault                           the size of the markers of agents whose portrayal names none (`none` without agents)
   drawc0 | altairc0                  the components without a portrayal (their defaults: `{}`, `{"id": unique_id}`)
   layer v…                           property layer `v`: values, x-major (W*H ints);  layern NAME v…: layer NAME
@@ -418,6 +421,16 @@ def stepLine0 (st : St) (ws : List String) : St × String :=
             | .exact f => fmtFrac f
             | _ => "?"
           (st, s!"ok size={size}" ++ ((fmtDraw d.groups).drop 2).toString)
+  | ["frame"] =>
+    withSpace st fun sp =>
+      match drawRaises sp with
+      | some e => (st, fmtErr e)
+      | none =>
+        match frameOf sp with
+        | none => (st, "ok -")
+        | some f =>
+          let fr (n : Int) : String := fmtFrac ⟨n, f.den⟩
+          (st, s!"ok x={fr f.xlo}..{fr f.xhi} y={fr f.ylo}..{fr f.yhi}")
   | ["sdefault"] =>
     withSpace st fun sp =>
       match drawRaises sp with
